@@ -151,7 +151,7 @@ def run(ctx: core.Ctx):
     tasks = [C.task_basis()]
     tasks += [C.task_segA(n, m) for n in range(1, nmax + 1) for m in range(1, n + 1)]
     tasks += [C.task_segC(r, 8) for r in range(0, 5)] + [C.task_segC(1, 24), C.task_segC(3, 12)]
-    tasks += [C.task_segD(n) for n in range(1, nmax + 1)]
+    tasks += [C.task_segD(n, m) for n in range(1, nmax + 1) for m in range(1, n + 1)]
     tasks += [C.task_to_circuit(n) for n in range(1, 7)]
     tasks += [C.case_check_LC(n, m) for n, m in [(1, 1), (2, 1), (2, 2), (3, 2)]]
     tasks += [C.task_check_LC(n, m) for n in range(1, 7) for m in sorted({1, n})]
